@@ -1863,6 +1863,20 @@ class _ParamScaler(py4hw.Logic):
         return 'ParamScaler{}_{}'.format(self.inPorts[0].wire.getWidth(), self.outPorts[0].wire.getWidth())
 
 
+class _ParamScalerPair(py4hw.Logic):
+    """one more level: the parameter is forwarded by reference twice (this block -> scaler -> leaf)"""
+
+    def __init__(self, parent, name, a, r, step):
+        super().__init__(parent, name)
+        self.addIn('a', a)
+        self.addOut('r', r)
+        self.addParameter('STEP', step)
+        _ParamScaler(self, 'inner', a, r, self.getParameter('STEP'))
+
+    def structureName(self):
+        return 'ParamScalerPair{}_{}'.format(self.inPorts[0].wire.getWidth(), self.outPorts[0].wire.getWidth())
+
+
 @register
 class ParamScaler(SeqKind):
     name = 'ParamScaler'
@@ -1871,10 +1885,22 @@ class ParamScaler(SeqKind):
 
     def plan(self, rng, pool):
         a, w = pool.any(2, 31)
-        return {'step': rng.choice([0, 1, 2, 5, 9, 200])}, [a], [rng.choice([w, w, max(1, w - 1), w + 2])]
+        return {'step': rng.choice([0, 1, 2, 5, 9, 200]), 'deep': rng.random() < 0.3}, [a], [rng.choice([w, w, max(1, w - 1), w + 2])]
 
     def build(self, parent, nm, ins, outs, p):
-        return _ParamScaler(parent, nm, ins[0], outs[0], p['step'])
+        obj = (_ParamScalerPair if p.get('deep') else _ParamScaler)(parent, nm, ins[0], outs[0], p['step'])
+        # whatever the number of levels a parameter is forwarded through, its value is the number given at the top
+        stack = [obj]
+        while stack:
+            o = stack.pop()
+            stack.extend(o.children.values())
+            for pn in (o.getParameterNames() or []):
+                v = o.getParameterValue(pn)
+                if v != p['step'] and not (o.name == 'second' and v == 1):
+                    from .core import Violation
+                    raise Violation('sut-exception', 'param:unresolved', 0, '%s.getParameterValue(%r) returned %r, the value given at the top is %r' % (
+                        o.getFullPath(), pn, v, p['step']))
+        return obj
 
     def init(self, p, iw, ow):
         return (0, 0)
